@@ -27,6 +27,7 @@ const (
 	SIndex  // X[I]
 	SQuant  // forall/exists
 	SSlice  // X[lo:hi]
+	SExistsFn // existsfn f: T -> R :: body
 )
 
 type Binder struct {
@@ -101,7 +102,7 @@ type tok struct {
 func lex(src string) ([]tok, error) {
 	var out []tok
 	i := 0
-	ops := []string{"<==>", "==>", "&&", "||", "==", "!=", "<=", ">=", "::", ":=", "<", ">", "+", "-", "*", "/", "%", "!", "(", ")", "[", "]", "{", "}", ".", ",", ":", "@", "=", ";"}
+	ops := []string{"<==>", "==>", "->", "&&", "||", "==", "!=", "<=", ">=", "::", ":=", "<", ">", "+", "-", "*", "/", "%", "!", "(", ")", "[", "]", "{", "}", ".", ",", ":", "@", "=", ";"}
 	for i < len(src) {
 		c := src[i]
 		switch {
@@ -384,6 +385,25 @@ func (p *parser) primary() *SExpr {
 			return &SExpr{Kind: SBoolLit, Bool: t.s == "true"}
 		case "nil":
 			return &SExpr{Kind: SNil}
+		case "existsfn":
+			n := p.next()
+			p.expectOp(":")
+			var at, rt strings.Builder
+			cur := &at
+			for !p.isOp("::") {
+				tk := p.next()
+				if tk.k == "eof" {
+					panic(fmt.Errorf("existsfn: missing :: in %q", p.src))
+				}
+				if tk.k == "op" && tk.s == "->" {
+					cur = &rt
+					continue
+				}
+				cur.WriteString(tk.s)
+			}
+			p.expectOp("::")
+			body := p.expr()
+			return &SExpr{Kind: SExistsFn, Name: n.s, Label: n.s, Binders: []Binder{{"arg", at.String()}, {"res", rt.String()}}, Args: []*SExpr{body}}
 		case "forall", "exists":
 			q := &SExpr{Kind: SQuant, Name: t.s}
 			for {
@@ -464,6 +484,7 @@ type Clause struct {
 	Expr  *SExpr
 	Text  string
 	Wit   map[string]*SExpr // witness hints for named existentials in goal position
+	WitParam map[string]string // parameter name of a function witness: witness pos(k) := e
 }
 
 type LoopContract struct {
@@ -495,6 +516,7 @@ type Contract struct {
 	NoPanic  bool
 	Inline   bool
 	Pure     bool
+	PureCallbacks bool // precondition: function-typed parameters do not write pre-existing memory
 	Fresh    bool   // writes only memory allocated in its own activation (checked: frame obligations)
 	Modifies []string
 	ModifiesSet bool
@@ -548,7 +570,7 @@ func (cs *ContractSet) LoadContractText(text, path, pkgName string) error {
 		}
 		switch first {
 		case "spec", "axiom", "lemma", "func", "assume-contract", "requires", "ensures", "invariant", "ghost", "decreases",
-			"modifies", "nopanic", "pure", "inline", "loop", "property", "fresh", "copyof":
+			"modifies", "nopanic", "pure", "inline", "loop", "property", "fresh", "copyof", "callbacks-modify-nothing":
 			items = append(items, t)
 			lineNo = append(lineNo, i+1)
 		default:
@@ -578,6 +600,7 @@ func (cs *ContractSet) LoadContractText(text, path, pkgName string) error {
 				s = strings.TrimSpace(s[j+2:])
 			}
 			var wit map[string]*SExpr
+			var witp map[string]string
 			for {
 				j := strings.LastIndex(s, " witness ")
 				if j < 0 {
@@ -585,7 +608,15 @@ func (cs *ContractSet) LoadContractText(text, path, pkgName string) error {
 				}
 				w := strings.TrimSpace(s[j+len(" witness "):])
 				k := strings.Index(w, ":=")
-				if k < 0 || !isBareIdent(strings.TrimSpace(w[:k])) {
+				if k < 0 {
+					break
+				}
+				wname, wparam := strings.TrimSpace(w[:k]), ""
+				if o := strings.Index(wname, "("); o > 0 && strings.HasSuffix(wname, ")") {
+					wparam = strings.TrimSpace(wname[o+1 : len(wname)-1])
+					wname = strings.TrimSpace(wname[:o])
+				}
+				if k < 0 || !isBareIdent(wname) {
 					break
 				}
 				we, err := ParseSpecExpr(strings.TrimSpace(w[k+2:]))
@@ -594,12 +625,14 @@ func (cs *ContractSet) LoadContractText(text, path, pkgName string) error {
 				}
 				if wit == nil {
 					wit = map[string]*SExpr{}
+					witp = map[string]string{}
 				}
-				wit[strings.TrimSpace(w[:k])] = we
+				wit[wname] = we
+				witp[wname] = wparam
 				s = strings.TrimSpace(s[:j])
 			}
 			e, err := ParseSpecExpr(s)
-			return Clause{Label: label, Expr: e, Text: s, Wit: wit}, err
+			return Clause{Label: label, Expr: e, Text: s, Wit: wit, WitParam: witp}, err
 		}
 		switch kw {
 		case "spec":
@@ -725,6 +758,8 @@ func (cs *ContractSet) LoadContractText(text, path, pkgName string) error {
 				cur.Inline = true
 			case "fresh":
 				cur.Fresh = true
+			case "callbacks-modify-nothing":
+				cur.PureCallbacks = true
 			case "copyof":
 				cur.CopyOf = rest
 			case "modifies":
